@@ -211,6 +211,31 @@ def finish(rep, level='proof', technique='', trusted_base=(), checker_cmd='', ex
                          % (rep.pid, rp, o.name))
     for v in rep.violations:
         vio_lines.append(v)
+    unreach = [e for e in rep.errors if 'outside the supported' in e or 'front end' in e or 'not found in' in e]
+    if unreach and not vio_lines and concretise is not None:
+        # A function under contract could not be brought within the verifier's reach on THIS tree (it could on the
+        # unchanged one), so its obligations are undecided.  The property's replay battery is then run against the
+        # real build: a failing input is a demonstrated violation (reported with the obligation group that could
+        # not be re-established); a passing battery decides nothing and the run stays a checker error (exit 3).
+        try:
+            script = concretise(None, {})
+        except Exception:
+            script = None
+        if script:
+            what = unreach[0].split(':')[0]
+            header = "property %s\nobligations of %s could not be generated: %s" % (rep.pid, what, unreach[0])
+            rp = replay.write_replay(rep.pid, 900, header, script)
+            try:
+                rc, out = replay.run_script(rp)
+            except Exception as ex:
+                rc, out = 99, repr(ex)
+            crashed = rc < 0 or rc in (134, 139)
+            if (rc == 1 and 'FAIL' in out) or crashed:
+                fail = [l for l in out.strip().split('\n') if l.startswith('FAIL')] or \
+                       ["FAIL the real code crashed during the replay (exit status %s)" % rc]
+                vio_lines.append("VIOLATION property=%s replay=%s obligation=%s:contract-cannot-be-re-established[%s] :: %s"
+                                 % (rep.pid, rp, what, unreach[0][:120], fail[0][:200]))
+            rep.notes.append("replay battery run because of a checker error: rc=%s" % rc)
     if getattr(rep, '_known_entries', None):
         confirm_known(rep)
     for kf in rep.known:
